@@ -602,3 +602,91 @@ def directed_passing_modules():
                     else:
                         top = dict(name="main", params=[dict(name="p0")], body=body, ret=ret, uses_flags=(h == "flag"))
                         yield dict(defs=[top], args=[x])
+
+
+# ---------------------------------------------------------------------------------------------
+# slice B: the built table, as a multiset of canonical terms (no id prediction needed)
+# ---------------------------------------------------------------------------------------------
+def _path(keys):
+    return "".join("/i%d" % k if isinstance(k, int) and not isinstance(k, bool) else "/s%s" % k for k in keys)
+
+
+def real_table_terms(top, args):
+    """Canonical terms of the real DAG's table: one per executable node, plus the return references."""
+    from tawazi.node import UsageExecNode
+    xs = top.exec_nodes
+    bound = dict(top.results)
+    for uxn, v in zip(top.input_uxns, args):
+        bound[uxn.id] = v
+    memo = {}
+
+    def fname(node):
+        q = getattr(node.exec_function, "__qualname__", "?")
+        if "<lambda>" in q:
+            return "$ident"
+        return q
+
+    def term_of(id_):
+        if id_ in memo:
+            return memo[id_]
+        node = xs[id_]
+        if type(node).__name__ != "LazyExecNode":
+            t = "c" + (render(bound[id_]) if id_ in bound else "?")
+        else:
+            a = ",".join(ref(u) for u in node.args)
+            kw = ",".join("%s=%s" % (k.split(".")[-1], ref(u)) for k, u in sorted(node.kwargs.items(), key=lambda kv: kv[0].split(".")[-1]))
+            fl = ref(node.active) if node.active is not None else "-"
+            t = "%s(%s|%s|%s)" % (fname(node), a, kw, fl)
+        memo[id_] = t
+        return t
+
+    def ref(u):
+        return term_of(u.id) + _path(u.key)
+
+    nodes = sorted(term_of(i) for i, n in xs.items() if type(n).__name__ == "LazyExecNode")
+    r = top.return_uxns
+    if r is None:
+        rets = []
+    elif isinstance(r, UsageExecNode):
+        rets = [ref(r)]
+    elif isinstance(r, dict):
+        rets = [ref(u) for u in r.values()]
+    else:
+        rets = [ref(u) for u in r]
+    return nodes, rets
+
+
+def model_table_terms(lines):
+    """The same canonical terms from the `node` / `ret` lines of lean/Drivers/Prog.lean."""
+    import re
+    recs = {}
+    rets = []
+    for l in lines:
+        w = l.split(" ", 2)
+        if w[1] == "node":
+            m = re.match(r"(\d+) (\S+) args\[(.*?)\] kw\[(.*?)\] flag\[(.*?)\]$", w[2])
+            if not m:
+                return None
+            k, fn, a, kw, fl = m.groups()
+            recs[int(k)] = (fn, a.split() if a else [], kw.split() if kw else [], fl)
+        elif w[1] == "ret":
+            rets = w[2].split() if len(w) > 2 else []
+    memo = {}
+
+    def ref(tok):
+        base, _, rest = tok.partition("/")
+        path = ("/" + rest) if rest else ""
+        if base.startswith("n") and base[1:].isdigit():
+            return term_of(int(base[1:])) + path
+        return base + path     # c<value> holder (or ? dangling)
+
+    def term_of(k):
+        if k in memo:
+            return memo[k]
+        fn, a, kw, fl = recs[k]
+        kws = sorted((x.split("=", 1) for x in kw), key=lambda p: p[0])
+        t = "%s(%s|%s|%s)" % (fn, ",".join(ref(x) for x in a), ",".join("%s=%s" % (n_, ref(v)) for n_, v in kws),
+                              ref(fl) if fl != "-" else "-")
+        memo[k] = t
+        return t
+    return sorted(term_of(k) for k in recs), [ref(x) for x in rets]
